@@ -22,7 +22,7 @@ ANCHORS = ["MPRenderer.draw_scenario", "MPRenderer.draw_dynamic_obstacle", "MPRe
            "MPRenderer.draw_phantom_obstacle", "MPRenderer.draw_environment_obstacle", "MPRenderer._draw_occupancy",
            "MPRenderer.draw_lanelet_network", "MPRenderer.draw_planning_problem_set", "MPRenderer.render",
            "BaseParam.__setattr__", "MPRenderer.draw_trajectory", "MPRenderer.draw_goal_region"]
-REQUIRED = ["totality.draw", "totality.render", "totality.rasterised", "types.icon", "types.shape", "exactness.checked", "exactness.dynamic-trajectory",
+REQUIRED = ["totality.draw", "totality.render", "totality.rasterised", "types.icon", "types.shape", "renderer.plot-limits", "renderer.focus-obstacle", "renderer.lanelets-in-view-required", "exactness.checked", "exactness.dynamic-trajectory",
             "exactness.dynamic-set", "exactness.static", "exactness.phantom", "exactness.environment",
             "exactness.window-before-horizon", "exactness.window-after-horizon", "exactness.no-occupancy-at-begin",
             "lanelets.all", "lanelets.subset", "lanelets.empty-list", "propagation.root", "propagation.nested",
@@ -294,11 +294,35 @@ def run(ctx):
         sel = [None, [], rng.sample(lids, rng.randint(1, len(lids)))][i % 3]
         ctx.feature("lanelets." + ("all" if sel is None else "empty-list" if not sel else "subset"))
         P.lanelet_network.draw_ids = sel
+        # renderer configuration: default / absolute plot limits / focus obstacle (limits relative to its position)
+        rconf = ["default", "default", "plot-limits", "focus-obstacle", "focus-obstacle+limits"][(i // 3) % 5]
+        rkw, view = {}, None
+        if rconf != "default":
+            # far away from the origin, so that world coordinates and obstacle-relative coordinates cannot be confused
+            shift = np.array([rng.choice([300.0, -450.0]), rng.choice([200.0, -120.0])])
+            sc.translate_rotate(shift, 0.0)
+            c0 = lanelets[0].center_vertices[len(lanelets[0].center_vertices) // 2]
+            if rconf == "plot-limits":
+                lim = [float(c0[0]) - 6.0, float(c0[0]) + 6.0, float(c0[1]) - 5.0, float(c0[1]) + 5.0]
+                rkw, view = {"plot_limits": lim}, lim
+            else:
+                from commonroad.geometry.shape import Rectangle
+                from commonroad.scenario.state import InitialState
+                focus = StaticObstacle(99, ObstacleType.PARKED_VEHICLE, Rectangle(1.0, 1.0), InitialState(
+                    time_step=0, position=np.array([float(c0[0]), float(c0[1])]), orientation=0.0))
+                sc.add_objects(focus)
+                obs.append(focus)
+                rel = [-12.0, 12.0, -9.0, 9.0] if rconf.endswith("limits") else [-20.0, 20.0, -20.0, 20.0]
+                rkw = {"focus_obstacle": focus}
+                if rconf.endswith("limits"):
+                    rkw["plot_limits"] = rel
+                view = [c0[0] + rel[0], c0[0] + rel[1], c0[1] + rel[2], c0[1] + rel[3]]
+        ctx.feature("renderer." + rconf)
         fig = plt.figure(figsize=(3, 3))
-        wit = {"time_begin": tb, "time_end": te, "draw_ids": sel,
+        wit = {"time_begin": tb, "time_end": te, "draw_ids": sel, "renderer": rconf,
                "obstacles": [[type(o).__name__, o.obstacle_id] for o in obs]}
         try:
-            rnd = MPRenderer(draw_params=P, ax=fig.gca())
+            rnd = MPRenderer(draw_params=P, ax=fig.gca(), **rkw)
             ctx.evaluation()
             sc.draw(rnd)
             patches = [patch_desc(p) for p in rnd.obstacle_patches]
@@ -338,7 +362,15 @@ def run(ctx):
         if fills:
             got = [[(float(x), float(y)) for x, y in path.vertices] for path in fills[0].get_paths()]
             got = [g[:-1] if len(g) > 1 and g[0] == g[-1] else g for g in got]
-        miss = [w for w in want if not any(geom.rings_equal(w, g, 1e-9) for g in got)]
+        def in_view(ring):
+            xs_, ys_ = [p[0] for p in ring], [p[1] for p in ring]
+            return max(xs_) >= view[0] and min(xs_) <= view[1] and max(ys_) >= view[2] and min(ys_) <= view[3]
+        # with plot limits only the lanelets that reach into the plotted region are REQUIRED (a renderer may skip what
+        # lies outside the view); nothing but selected lanelets may be drawn in any configuration
+        need = want if view is None else [w for w in want if in_view(w)]
+        if view is not None and need:
+            ctx.feature("renderer.lanelets-in-view-required")
+        miss = [w for w in need if not any(geom.rings_equal(w, g, 1e-9) for g in got)]
         extra = [g for g in got if not any(geom.rings_equal(w, g, 1e-9) for w in want)]
         if miss:
             ctx.violation("C19/exactness/selected-lanelet-not-drawn", "%d of %d selected lanelets missing (draw_ids=%s)" % (
